@@ -401,6 +401,11 @@ func runC16(c *vlib.HistCase) (bool, []string, error) {
 	refusedFirst := map[string]bool{}
 	nontrivial := false
 	var classes []string
+	type kept struct {
+		got, snap []byte
+		id        string
+	}
+	var retained []kept
 
 	check := func(st *vlib.Step) error {
 		if st != nil {
@@ -423,6 +428,12 @@ func runC16(c *vlib.HistCase) (bool, []string, error) {
 			}
 			code, body, _ := serve("GET", fmt.Sprintf(api.HTTPGetCheckpoint, id))
 			cb, cerr := cl.GetLatestCheckpoint(ctx, id)
+			if cerr == nil {
+				retained = append(retained, kept{got: cb, snap: append([]byte{}, cb...), id: id})
+				if len(retained) > 60 {
+					retained = retained[len(retained)-60:]
+				}
+			}
 			if werr == nil {
 				if grown[id] || refusedFirst[id] {
 					nontrivial = true
@@ -445,6 +456,13 @@ func runC16(c *vlib.HistCase) (bool, []string, error) {
 				if !errors.Is(cerr, os.ErrNotExist) {
 					return fmt.Errorf("client.GetLatestCheckpoint(%s) while the witness holds none = %q, %v; want os.ErrNotExist", id[:8], cb, cerr)
 				}
+			}
+		}
+		// what the client handed out earlier belongs to the caller: it must not change under
+		// later calls (feeders keep the witness's checkpoint while they fetch proofs)
+		for _, k := range retained {
+			if !bytes.Equal(k.got, k.snap) {
+				return fmt.Errorf("bytes returned earlier by client.GetLatestCheckpoint(%s) changed after later client calls: were %q, are now %q", k.id[:8], k.snap, k.got)
 			}
 		}
 		// log list
